@@ -1,6 +1,7 @@
 """C20 check configuration (see lib/props.py for the field meanings)."""
 
 PROP = {
+    "level_text_more": 'Generated files may end with the beginning of a further record without a line break (a flush in progress or cut short): it is not a line, reads return the complete lines only and seeks keep to the three error classes.',
     "thorough_scale": 4,
     "pkg": "internal/querylog",
     "files": ["querylog/c20_gen_test.go", "querylog/c20_file_test.go", "querylog/c20_reader_test.go"],
